@@ -3,3 +3,4 @@
 //! decoder. See /verif/DESIGN.md.
 pub mod bitmodel;
 pub mod harness;
+pub mod refper;
